@@ -327,21 +327,22 @@ class Interp:
             "tan", "integer_pow", "pow", "square", "reduce_sum", "dot_general", "cumsum", "max", "min", "abs", "sign", "erf", "atan"}
 
     # -- arithmetic ------------------------------------------------------
-    def _bin(self, f, ins):
+    def _bin(self, f, ins, arith=False):
         a, b = _asobj(ins[0]), _asobj(ins[1])
-        a, b = _ph_arr(a), _ph_arr(b)
+        if arith:            # +-inf constants met by +, -, *, / become placeholders; max / min treat them exactly
+            a, b = _ph_arr(a), _ph_arr(b)
         return [np.asarray(f(a, b), dtype=object)]
 
     def p_add(self, ins, params, eqn):
-        return self._bin(lambda a, b: a + b, ins)
+        return self._bin(lambda a, b: a + b, ins, arith=True)
 
     p_add_any = p_add
 
     def p_sub(self, ins, params, eqn):
-        return self._bin(lambda a, b: a - b, ins)
+        return self._bin(lambda a, b: a - b, ins, arith=True)
 
     def p_mul(self, ins, params, eqn):
-        return self._bin(lambda a, b: a * b, ins)
+        return self._bin(lambda a, b: a * b, ins, arith=True)
 
     def p_div(self, ins, params, eqn):
         if np.issubdtype(eqn.outvars[0].aval.dtype, np.integer):
@@ -350,7 +351,7 @@ class Interp:
                 a = a if isinstance(a, SI) else SI(a)
                 return a.trunc_div(b)
             return self._bin(np.frompyfunc(tdiv, 2, 1), ins)
-        return self._bin(lambda a, b: a / b, ins)
+        return self._bin(lambda a, b: a / b, ins, arith=True)
 
     def p_rem(self, ins, params, eqn):
         if not np.issubdtype(eqn.outvars[0].aval.dtype, np.integer):
